@@ -4,6 +4,7 @@ import (
 	"fmt"
 	"go/constant"
 	"go/types"
+	"os"
 	"sort"
 	"strings"
 
@@ -526,6 +527,7 @@ func checkValidateResult(r *Report, m *spModel, sr *sigRoles) {
 		r.Fn(p.FnName(fn))
 		rej := fc.RejectFormula()
 		var validateNil, hookNil, hookRes, notFound string
+		finderResults := map[string]bool{}
 		for name, ai := range a.Atoms {
 			switch {
 			case ai.Kind == "isnil" && strings.Contains(name, "ValidationContext).Validate#") && strings.HasSuffix(name, "#1)"):
@@ -542,6 +544,9 @@ func checkValidateResult(r *Report, m *spModel, sr *sigRoles) {
 				if c, ok := in.(*ssa.Call); ok {
 					if scf := c.Call.StaticCallee(); scf != nil && sr.Finders[scf] {
 						notFound = "isnil(" + fc.AP(c) + "#0)"
+						if _, isSlice := scf.Signature.Results().At(0).Type().Underlying().(*types.Slice); isSlice {
+							finderResults[fc.AP(c)+"#0"] = true
+						}
 					}
 				}
 			}
@@ -568,7 +573,25 @@ func checkValidateResult(r *Report, m *spModel, sr *sigRoles) {
 				if g, ok := ld.X.(*ssa.Global); ok && strings.Contains(g.Name(), "NotPresent") {
 					found = true
 					if notFound == "" || !B.HasVar(notFound) || !fc.Implied(ret.Block(), B.Var(notFound)) {
-						okNP = false
+						// a finder that hands back all matching children: "none" is the empty result
+						okE := false
+						for _, nm := range B.Support(fc.Cond(ret.Block())) {
+							ai := a.Atoms[nm]
+							if ai == nil || len(ai.Args) == 0 || !fc.Implied(ret.Block(), B.Var(nm)) {
+								continue
+							}
+							if os.Getenv("SAMLVERIF_DEBUG") != "" {
+								fmt.Printf("DEBUG notpresent atom %s kind=%s args=%v\n", nm, ai.Kind, ai.Args)
+							}
+							for res := range finderResults {
+								if ai.Kind == "empty" && ai.Args[0] == res || ai.Kind == "eq" && len(ai.Args) == 2 && ai.Args[0] == "len("+res+")" && ai.Args[1] == "c:0" {
+									okE = true
+								}
+							}
+						}
+						if !okE {
+							okNP = false
+						}
 					}
 				}
 			}
